@@ -143,6 +143,8 @@ def impl_env(bdir, threads=None):
     env['PYTHONHASHSEED'] = '0'
     env[GUARD] = '1'
     env['OMP_NUM_THREADS'] = str(threads if threads else 4)
+    env['OPENBLAS_NUM_THREADS'] = '2'      # BLAS pools of 16 threads only oversubscribe the machine on these sizes
+    env['MKL_NUM_THREADS'] = '2'
     env.pop('PYTHONSTARTUP', None)
     return env
 
